@@ -213,6 +213,25 @@ def _momentum(ctx, st, rng, stats):
     if crit >= 1.0 + 1e-9:
         ctx.violation("momentum:returned-point", f"returned point has scaled fixed-point residual {crit:.3e} >= 1 "
                       f"(reported error {err:.3e}, {niter} iterations) on {_pshort(p)}", rep)
+    # the same map started far away from its fixed point (the relative tolerance refers to the iterates, not to the initial guess)
+    far = xs + np.array([(1.0 if i % 2 == 0 else -1.0) * 10.0 ** rng.uniform(2, 5) for i in range(n)])
+    try:
+        with contextlib.redirect_stdout(io.StringIO()):
+            x, niter, err = fixed_point_iteration_with_momentum(fun, far.copy(), atol=atol, rtol=rtol, max_iter=400)
+    except (RuntimeError, ValueError):
+        stats["raised"] += 1
+        return
+    except Exception as ex:
+        ctx.violation("momentum:raises-other", f"raised {type(ex).__name__}: {ex} on {_pshort(p)} started at {far.tolist()}", rep)
+        return
+    fx = cvec * x + b
+    scale = atol + np.maximum(np.abs(x), np.abs(fx)) * rtol
+    crit = np.linalg.norm((fx - x) / scale) / math.sqrt(n)
+    stats["returned"] += 1
+    stats["far starts"] = stats.get("far starts", 0) + 1
+    if crit >= 1.0 + 1e-9:
+        ctx.violation("momentum:returned-point:far-start", f"returned point has scaled fixed-point residual {crit:.3e} >= 1 "
+                      f"(reported error {err:.3e}, {niter} iterations) on {_pshort(p)} started at {far.tolist()}", dict(rep, x0=far.tolist()))
 
 
 def _fprime(ctx, st, rng):
